@@ -146,15 +146,19 @@ func c01Attribute(run *raRun, program, ref string) (site, finding, note string) 
 			if (e.Site != "join" && e.Site != "join:cmdline") || len(e.In) == 0 {
 				continue
 			}
-			// a join is used inside concatenations, so its inputs and its output are compared as whole-string languages
-			union := "^(?:(?:" + strings.Join(e.In, ")|(?:") + "))$"
-			pu, e1 := relang.CompileWith(union, relang.Rassemble, false, false)
-			po, e2 := relang.CompileWith("^(?:"+e.Out+")$", relang.Rassemble, false, false)
-			if e1 != nil || e2 != nil {
-				continue
-			}
-			if res := relang.EquivProgs(pu, po, eqBudget); !res.Unknown && !res.Equal {
-				return "join", "F31", fmt.Sprintf("explained by the listed finding F31: rassemble.Join(%q) = %s does not accept the same strings as its inputs (witness %s)", e.In, core.Q(e.Out), core.Q(res.Witness))
+			// a join is used inside concatenations, so its inputs and its output are compared as whole-string languages,
+			// between every pair of a word character, a non-word character and nothing as neighbours (assertions at the
+			// edges of the expression look at the neighbour)
+			union := "(?:(?:" + strings.Join(e.In, ")|(?:") + "))"
+			for _, ctx := range [][2]string{{"", ""}, {"0", "0"}, {" ", " "}, {"0", ""}, {"", "0"}, {" ", ""}, {"", " "}, {"0", " "}, {" ", "0"}} {
+				pu, e1 := relang.CompileWith("^"+ctx[0]+union+ctx[1]+"$", relang.Rassemble, false, false)
+				po, e2 := relang.CompileWith("^"+ctx[0]+"(?:"+e.Out+")"+ctx[1]+"$", relang.Rassemble, false, false)
+				if e1 != nil || e2 != nil {
+					break
+				}
+				if res := relang.EquivProgs(pu, po, eqBudget); !res.Unknown && !res.Equal {
+					return "join", "F31", fmt.Sprintf("explained by the listed finding F31: rassemble.Join(%q) = %s does not accept the same strings as its inputs (witness %s between %q and %q)", e.In, core.Q(e.Out), core.Q(res.Witness), ctx[0], ctx[1])
+				}
 			}
 		}
 		// find the earliest step that differs from the reference, for the record
